@@ -285,6 +285,9 @@ def bfs(model: BfsModel, depth: int, jobs: int, chunk: int = 32, max_states: int
 
 def write_evidence(ctx: Ctx, report: Report, wall_s: float, n_new: int, n_known: int) -> str:
     path = os.path.join(VERIF, "evidence", f"{ctx.prop}.json")
+    if os.path.realpath(os.environ.get("VERIF_REPO", "/repo")) != os.path.realpath("/repo"):
+        # a run against a scratch tree (seeded change, mutant): never overwrite the evidence of /repo
+        path = os.path.join(VERIF, "build", "evidence-scratch", f"{ctx.prop}.json")
     os.makedirs(os.path.dirname(path), exist_ok=True)
     ev = {
         "property_id": ctx.prop,
